@@ -46,9 +46,9 @@ func identityOf(f *ssa.Function) PinnedFunc {
 	}
 	q := func(p *types.Package) string { return p.Path() }
 	if r := f.Signature.Recv(); r != nil {
-		pf.Recv = types.TypeString(r.Type(), q)
+		pf.Recv = recordedTypes(types.TypeString(r.Type(), q))
 	}
-	pf.Sig = types.TypeString(types.NewSignatureType(nil, nil, nil, f.Signature.Params(), f.Signature.Results(), f.Signature.Variadic()), q)
+	pf.Sig = recordedTypes(types.TypeString(types.NewSignatureType(nil, nil, nil, f.Signature.Params(), f.Signature.Results(), f.Signature.Variadic()), q))
 	seen := map[string]bool{}
 	for _, b := range f.Blocks {
 		for _, in := range b.Instrs {
@@ -88,7 +88,6 @@ func PinnedTable(p *Prog) []byte {
 func computeRenames(p *Prog) {
 	renamed = map[string]string{}
 	restored = map[string]*ssa.Function{}
-	RenameNotes = nil
 	var tab []PinnedFunc
 	if err := json.Unmarshal(pinnedFuncsJSON, &tab); err != nil || len(tab) == 0 {
 		return
@@ -99,7 +98,16 @@ func computeRenames(p *Prog) {
 	}
 	current := map[string]*ssa.Function{}
 	for _, f := range namedFuncs(p) {
-		current[f.String()] = f
+		n := f.String()
+		// a method of a renamed type whose own name is unchanged is the recorded method
+		if rn := recordedTypes(n); rn != n {
+			if _, isPinned := pinned[rn]; isPinned {
+				renamed[n] = rn
+				restored[rn] = f
+				n = rn
+			}
+		}
+		current[n] = f
 	}
 	var fresh []*ssa.Function
 	for n, f := range current {
@@ -125,11 +133,22 @@ func computeRenames(p *Prog) {
 				continue
 			}
 			id := identityOf(f)
-			if id.Pkg != old.Pkg || id.Recv != old.Recv || id.Sig != old.Sig {
+			if id.Recv != old.Recv || id.Sig != old.Sig {
+				continue
+			}
+			// a plain function may have moved to another package of the module (and been exported on the way);
+			// methods stay with their type
+			if id.Pkg != old.Pkg && (old.Recv != "" || !strings.HasPrefix(id.Pkg, ModPath)) {
 				continue
 			}
 			cands++
 			sc := jaccard(old.Callees, id.Callees)
+			if id.Pkg == old.Pkg {
+				sc += 0.25 // same package: preferred among look-alikes
+			}
+			if strings.EqualFold(shortName(id.Name), shortName(old.Name)) {
+				sc += 0.5 // same name up to the case of its first letter
+			}
 			switch {
 			case sc > bestScore:
 				best, bestScore, ties = f, sc, 1
@@ -268,9 +287,17 @@ func computeFieldRenames(p *Prog) {
 	for _, ps := range tab {
 		st, ok := sts[ps.Type]
 		if !ok {
-			continue
+			if nw, has := typeRestored[ps.Type]; has {
+				st, ok = sts[nw]
+			}
+			if !ok {
+				continue
+			}
 		}
 		cur := fieldList(st)
+		for i := range cur {
+			cur[i][1] = recordedTypes(cur[i][1])
+		}
 		curNames, oldNames := map[string]bool{}, map[string]bool{}
 		for _, f := range cur {
 			curNames[f[0]] = true
@@ -327,7 +354,11 @@ func recordedField(t types.Type, name string) string {
 	if !ok || n.Obj().Pkg() == nil {
 		return name
 	}
-	if o, ok := fieldRenamed[n.Obj().Pkg().Path()+"."+n.Obj().Name()+"\x00"+name]; ok {
+	tname := n.Obj().Pkg().Path() + "." + n.Obj().Name()
+	if o, ok := typeRenamed[tname]; ok {
+		tname = o
+	}
+	if o, ok := fieldRenamed[tname+"\x00"+name]; ok {
 		return o
 	}
 	return name
@@ -335,3 +366,123 @@ func recordedField(t types.Type, name string) string {
 
 // RecordedField is recordedField, for rules that read field names from go/types directly.
 func RecordedField(t types.Type, name string) string { return recordedField(t, name) }
+
+func shortName(full string) string {
+	full = strings.TrimSuffix(full, ")")
+	if i := strings.LastIndexByte(full, '.'); i >= 0 {
+		return full[i+1:]
+	}
+	return full
+}
+
+// ---- named types: a recorded type name that is gone is found again in the only type new to the same package whose
+// underlying type is the recorded one (the type's own name replaced inside it). Every type name the rules compare
+// comes from NamedTypeOf, which answers with the recorded name; receiver and signature strings are compared after
+// the same replacement, so the methods of a renamed type are recovered by the function table.
+
+// typeRenamed maps the current qualified name of a renamed type to the recorded one; typeRestored the reverse.
+var typeRenamed = map[string]string{}
+var typeRestored = map[string]string{}
+
+// CurrentTypeName: the name a recorded type (package-relative qualified name "pkgpath.Name") carries now.
+func CurrentTypeName(recorded string) string {
+	if nw, ok := typeRestored[recorded]; ok {
+		return nw
+	}
+	return recorded
+}
+
+func computeTypeRenames(p *Prog) {
+	RenameNotes = nil
+	typeRenamed = map[string]string{}
+	typeRestored = map[string]string{}
+	rows := loadPinnedTypes()
+	if len(rows) == 0 {
+		return
+	}
+	q := func(pk *types.Package) string { return pk.Path() }
+	cur := map[string]string{}
+	curPkg := map[string]string{}
+	for _, pk := range p.Pkgs {
+		sc := pk.Types.Scope()
+		for _, n := range sc.Names() {
+			if tn, ok := sc.Lookup(n).(*types.TypeName); ok && !tn.IsAlias() {
+				cur[pk.PkgPath+"."+n] = types.TypeString(tn.Type().Underlying(), q)
+				curPkg[pk.PkgPath+"."+n] = pk.PkgPath
+			}
+		}
+	}
+	pinned := map[string]string{}
+	for _, r := range rows {
+		pinned[r[0]] = r[1]
+	}
+	var fresh []string
+	for n := range cur {
+		if _, ok := pinned[n]; !ok {
+			fresh = append(fresh, n)
+		}
+	}
+	sort.Strings(fresh)
+	var gone []string
+	for n := range pinned {
+		if _, ok := cur[n]; !ok {
+			gone = append(gone, n)
+		}
+	}
+	sort.Strings(gone)
+	taken := map[string]bool{}
+	for _, g := range gone {
+		pkgOf := g[:strings.LastIndexByte(g, '.')]
+		var match []string
+		for _, f := range fresh {
+			if taken[f] || curPkg[f] != pkgOf {
+				continue
+			}
+			if replaceTypeName(cur[f], f, g) == pinned[g] {
+				match = append(match, f)
+			}
+		}
+		if len(match) != 1 {
+			continue
+		}
+		taken[match[0]] = true
+		typeRenamed[match[0]] = g
+		typeRestored[g] = match[0]
+		RenameNotes = append(RenameNotes, "type "+strings.ReplaceAll(g, ModPath+"/", "")+" -> "+strings.ReplaceAll(match[0], ModPath+"/", ""))
+	}
+}
+
+// replaceTypeName replaces the qualified type name from by to inside a type string, at identifier boundaries.
+func replaceTypeName(s, from, to string) string {
+	if from == to || !strings.Contains(s, from) {
+		return s
+	}
+	var b strings.Builder
+	for i := 0; i < len(s); {
+		if strings.HasPrefix(s[i:], from) {
+			end := i + len(from)
+			startOK := i == 0 || !isIdentByte(s[i-1])
+			endOK := end == len(s) || !isIdentByte(s[end])
+			if startOK && endOK {
+				b.WriteString(to)
+				i = end
+				continue
+			}
+		}
+		b.WriteByte(s[i])
+		i++
+	}
+	return b.String()
+}
+
+func isIdentByte(c byte) bool {
+	return c == '_' || c == '/' || c == '.' || (c >= '0' && c <= '9') || (c >= 'a' && c <= 'z') || (c >= 'A' && c <= 'Z')
+}
+
+// recordedTypes rewrites every renamed type name inside a type / receiver / function string to the recorded one.
+func recordedTypes(s string) string {
+	for nw, old := range typeRenamed {
+		s = replaceTypeName(s, nw, old)
+	}
+	return s
+}
